@@ -113,8 +113,9 @@ def liesel_update_state_obligations(ctx, ci, rule="C03.R3"):
                      "path (every derived quantity in the returned state is recomputed)",
            ok_upd, detail=f"{[(e[0], short(e[4])) for e in upd]}",
            stmt="final update " + str([pretty(e[4])[:80] for e in upd]))
-    other = [e for e in events if e[0] in ("other_store", "state_store_other", "set_flag",
-                                           "auto_update")]
+    # (switching auto_update off while the entries are assigned is a harmless
+    # optimisation as long as the full update follows, so it is not counted)
+    other = [e for e in events if e[0] in ("other_store", "state_store_other", "set_flag")]
     ctx.ob(rule, us, "no other write to the private model", not other,
            detail=str([pretty(e[4]) for e in other]), stmt="other writes")
     rt = res.ret()
